@@ -37,6 +37,7 @@ type SecureAead struct {
 	secret []byte
 	aead   cipher.AEAD
 	nonce  []byte
+	rbuf   []byte // opened bytes of the current frame not yet returned by Read
 }
 
 const (
@@ -117,25 +118,34 @@ func (sa *SecureAead) increaseNonce() {
 	}
 }
 func (sa *SecureAead) Read(b []byte) (n int, err error) {
-	frame := make([]byte, secureConnFrameSize)
-	_, err = io.ReadFull(sa.conn, frame[:secureConnHeaderSize])
-	if err != nil {
-		return
-	}
-	n = int(binary.BigEndian.Uint16(frame))
-	sealed := make([]byte, n+sa.aead.Overhead())
-	_, err = io.ReadFull(sa.conn, sealed)
-	if err != nil {
-		return
+	if len(sa.rbuf) == 0 {
+		frame := make([]byte, secureConnFrameSize)
+		_, err = io.ReadFull(sa.conn, frame[:secureConnHeaderSize])
+		if err != nil {
+			return
+		}
+		fn := int(binary.BigEndian.Uint16(frame))
+		if fn > secureConnFrameSize {
+			err = fmt.Errorf("invalid secure frame size %d", fn)
+			return
+		}
+		sealed := make([]byte, fn+sa.aead.Overhead())
+		_, err = io.ReadFull(sa.conn, sealed)
+		if err != nil {
+			return
+		}
+
+		var opened []byte
+		opened, err = sa.aead.Open(frame[:0], sa.nonce, sealed[:], nil)
+		if err != nil {
+			return
+		}
+		sa.increaseNonce()
+		sa.rbuf = opened
 	}
 
-	_, err = sa.aead.Open(frame[:0], sa.nonce, sealed[:], nil)
-	if err != nil {
-		return
-	}
-	sa.increaseNonce()
-
-	copy(b, frame[:n])
+	n = copy(b, sa.rbuf)
+	sa.rbuf = sa.rbuf[n:]
 	return
 }
 
